@@ -29,7 +29,7 @@ def build(spec, extent=1.0):
         if name == "Trend":
             return vd.Trend(**kw)
         if name == "Chain":
-            return vd.Chain([("s%d" % i, build(s, extent)) for i, s in enumerate(kw["steps"])])
+            return vd.Chain([(_step_name(kw, i), build(s, extent)) for i, s in enumerate(kw["steps"])])
         if name == "Vector":
             return vd.Vector([build(s, extent) for s in kw["components"]])
         if name == "BlockReduce":
@@ -44,6 +44,11 @@ def build(spec, extent=1.0):
         if name == "SplineCV":
             return vd.SplineCV(**kw)
     raise ValueError(name)
+
+
+def _step_name(kw, i):
+    """Names of the steps of a Chain spec: distinct by default, all equal with "names": "dup"."""
+    return "step" if kw.get("names") == "dup" else "s%d" % i
 
 
 def ncomp(spec):
@@ -93,7 +98,7 @@ def build_via(spec, extent=1.0, route="ctor"):
     with warnings.catch_warnings():
         warnings.simplefilter("ignore")
         if name == "Chain":
-            return vd.Chain([("s%d" % i, build_via(s, extent, route)) for i, s in enumerate(kw["steps"])])
+            return vd.Chain([(_step_name(kw, i), build_via(s, extent, route)) for i, s in enumerate(kw["steps"])])
         if name == "Vector":
             return vd.Vector([build_via(s, extent, route) for s in kw["components"]])
         target = build(spec, extent)
